@@ -562,10 +562,90 @@ def base64_engines():
     return "".join(out)
 
 
+# ----------------------------------------------------------------- ServerFnPath
+
+def server_fn_path():
+    """server_fn_macro/src/lib.rs `ServerFnCall::server_fn_url`: the pieces concatenated into `ServerFn::PATH`
+    with and without an `endpoint`, the endpoint normalisation, the hash input; and the default prefix of
+    server_fn_macro_default."""
+    rel = "server_fn_macro/src/lib.rs"
+    src = strip_rust_comments(read_repo(rel))
+    fn = section(src, r"pub\s+fn\s+server_fn_url\s*\(\s*&self\s*\)\s*->\s*TokenStream2\s*\{", "server_fn_url")
+    # endpoint normalisation: "/" + trim_start_matches('/')
+    m = re.search(r'let\s+fn_path\s*=\s*"(/)"\.to_string\(\)\s*\+\s*fn_path\.trim_start_matches\(\s*\'(/)\'\s*\)\s*;', fn)
+    if not m:
+        raise ExtractError("server_fn_url: endpoint normalisation `\"/\".to_string() + fn_path.trim_start_matches('/')` not found")
+    # prefix default: args.prefix or default_path
+    if not re.search(r"self\.args\.prefix\.clone\(\)\.unwrap_or_else\(\s*\|\|\s*\{?\s*LitStr::new\(\s*default_path\s*,", fn):
+        raise ExtractError("server_fn_url: `prefix` no longer defaults to `default_path`")
+    # mod path is empty unless SERVER_FN_MOD_PATH is set
+    if not re.search(r'option_env!\(\s*"SERVER_FN_MOD_PATH"\s*\)\.is_some\(\)', fn) or not re.search(r'else\s*\{\s*quote!\s*\{\s*""\s*\}\s*\}', fn):
+        raise ExtractError("server_fn_url: module-path component changed")
+    # hash = xxh64(concat!(env!(KEY), ":", module_path!()), 0) unless DISABLE_SERVER_FN_HASH
+    mh = re.search(r"const_xxh64::xxh64\(\s*concat!\(\s*env!\(\s*#key_env_var\s*\)\s*,\s*\"(.)\"\s*,\s*module_path!\(\)\s*\)\.as_bytes\(\)\s*,\s*(\d+)\s*\)", fn)
+    if not mh:
+        raise ExtractError("server_fn_url: hash expression changed")
+    mk = re.search(r'Some\(_\)\s*=>\s*"SERVER_FN_OVERRIDE_KEY"\s*,\s*None\s*=>\s*"(\w+)"', fn)
+    if not mk:
+        raise ExtractError("server_fn_url: hash key variable changed")
+    # the two concatcp! calls
+    calls = re.findall(r"const_format::concatcp!\(([^()]*)\)", fn.split("let fn_name_as_str")[1] if "let fn_name_as_str" in fn else "")
+    if len(calls) != 2:
+        raise ExtractError("server_fn_url: expected two concatcp! calls after fn_name_as_str, found %d" % len(calls))
+    def parts(c):
+        out = []
+        for a in c.split(","):
+            a = a.strip()
+            if not a:
+                continue
+            mm = re.fullmatch(r"#(\w+)", a)
+            ml = re.fullmatch(r'"([^"\\]*)"', a)
+            if mm:
+                out.append(("var", mm.group(1)))
+            elif ml:
+                out.append(("lit", ml.group(1)))
+            else:
+                raise ExtractError("server_fn_url: unexpected concatcp! argument %r" % a)
+        return out
+    with_ep, without_ep = parts(calls[0]), parts(calls[1])
+    if not re.search(r"if\s+let\s+Some\(fn_path\)\s*=\s*fn_path\s*\{", fn):
+        raise ExtractError("server_fn_url: the endpoint branch changed")
+    known = {"prefix", "mod_path", "fn_path", "fn_name_as_str", "hash"}
+    for k, v in with_ep + without_ep:
+        if k == "var" and v not in known:
+            raise ExtractError("server_fn_url: unknown component #%s" % v)
+    d = strip_rust_comments(read_repo("server_fn/server_fn_macro_default/src/lib.rs"))
+    md = re.search(r'option_env!\(\s*"SERVER_FN_PREFIX"\s*\)\.unwrap_or\(\s*"([^"\\]*)"\s*\)', d)
+    if not md:
+        raise ExtractError("server_fn_macro_default: default prefix not found")
+    def lean_parts(ps):
+        return lean_list(["(%s, %s)" % ("true" if k == "lit" else "false", lean_chars(v)) for k, v in ps])
+    out = []
+    out.append("/-! GENERATED by /verif/extract.py ServerFnPath from %s — do not edit.\n" % rel)
+    out.append("`ServerFn::PATH` as `ServerFnCall::server_fn_url` builds it: the arguments of the two `concatcp!` calls in\n"
+               "order, `(isLiteral, text-or-component-name)`; `fn_path` is the endpoint after normalisation\n"
+               "(`endpointLead` + the endpoint without leading `endpointTrim`), `mod_path` is empty (SERVER_FN_MOD_PATH unset),\n"
+               "`hash` is the decimal xxh64 (seed `hashSeed`) of `env!(hashKeyVar) ++ hashSep ++ module_path!()`. -/\n")
+    out.append("namespace Leptos.Gen.ServerFnPath\n\n")
+    out.append("def defaultPrefix : List Char := %s\n\n" % lean_chars(md.group(1)))
+    out.append("def endpointLead : List Char := %s\n\n" % lean_chars(m.group(1)))
+    out.append("def endpointTrim : Char := '%s'\n\n" % m.group(2))
+    out.append("def hashKeyVar : List Char := %s\n\n" % lean_chars(mk.group(1)))
+    out.append("def hashSep : Char := '%s'\n\n" % mh.group(1))
+    out.append("def hashSeed : Nat := %s\n\n" % mh.group(2))
+    out.append("/-- with an `endpoint = \"…\"` argument -/\n")
+    out.append("def withEndpoint : List (Bool × List Char) := %s\n\n" % lean_parts(with_ep))
+    out.append("/-- without: function name and hash -/\n")
+    out.append("def withoutEndpoint : List (Bool × List Char) := %s\n\n" % lean_parts(without_ep))
+    out.append("end Leptos.Gen.ServerFnPath\n")
+    return "".join(out)
+
+
 # ----------------------------------------------------------------- registry
 
 TABLES = {
     "ErrorKinds": error_kinds,
+    "ServerFnPath": server_fn_path,
     "Transfer": transfer,
     "Base64": base64_engines,
     "EscapeTables": escape_tables,
